@@ -12,7 +12,9 @@ Open Scope string_scope.
 Inductive site_class :=
 | Sorted            (* collected, then sorted before use: sort_then_emit_perm_invariant *)
 | Commutative       (* fold with a commuting step (set/map insertion of distinct keys, sums): commutative_fold_perm_invariant *)
-| PrefixFree        (* strings.Replacer over prefix-free markers: replacer_perm_invariant + markers_prefix_free *)
+| PrefixFree        (* strings.Replacer over prefix-free markers: replacer_perm_invariant + markers_prefix_free; no site
+                       uses it any more: insertionPointReplacer.Replace was classified so until C12's text-level proof
+                       showed that patch keys need not be prefix free (repaired in /repo: the keys are sorted now) *)
 | TemplateSorted    (* result is a map consumed by text/template `range`, which visits keys in sorted order *)
 | SequentialPipe    (* one producer goroutine, one consumer, unbuffered channel: FIFO, no choice *)
 | ScheduleFree      (* the concurrent writer: content and file set proved schedule independent (C19) *)
@@ -34,7 +36,7 @@ Definition classes : list (site * site_class) := [
   (("extension/thrift_option", "getOptionContent", "range-map", "annotation.annotations"), Existential);
   (("generator", "*asyncPostProcess.OnFinished", "go", "literal func(path string, content []byte)"), ScheduleFree);
   (("generator", "*asyncPostProcess.OnFinished", "select", "2-arms"), ScheduleFree);
-  (("generator", "*insertionPointReplacer.Replace", "range-map", "p.m"), PrefixFree);
+  (("generator", "*insertionPointReplacer.Replace", "range-map", "p.m"), Sorted);
   (("generator/fastgo", "*bitsetCodeGen.GenIfNotSet", "range-map", "g.m"), Commutative);
   (("generator/fastgo", "*codewriter.Imports", "range-map", "w.pkgs"), Sorted);
   (("generator/golang", "*CodeUtils.BuildFuncMap", "range-map", "fm"), Sorted);
